@@ -227,6 +227,14 @@ Definition weight_reads (hw : hwcfg) (r : regs) : list seg :=
      range_seg sr (r1 r cmd1_NPU_SET_SCALE1_BASE) (r1 r cmd1_NPU_SET_SCALE1_LENGTH mod 4294967296)
    else []).
 
+(* bytes of the look-up table an operation with a TABLE_LOOKUP activation reads, from the slot it names to at most the end
+   of the 2 KB LUT area. The table belongs to the output side: 256 one-byte entries for an 8-bit OFM, 512 four-byte
+   (base, slope) entries for a 16-bit OFM, 256 four-byte entries for a 32-bit OFM (the int8 softmax exponent table) -
+   the three table shapes Vela creates (lut.py, softmax.py) - whatever the IFM precision is (a requantising operation
+   with a fused table reads the table of its OFM type) *)
+Definition lut_read_bytes (ofm_elem i : Z) : Z :=
+  Z.min (2048 - i * 256) (if ofm_elem =? 1 then 256 else if ofm_elem =? 2 then 2048 else 1024).
+
 Definition lut_index (r : regs) : option Z :=
   let a := (r0 r cmd0_NPU_SET_ACTIVATION) mod 4096 in
   if (16 <=? a) && (a <=? 23) then Some (a - 16) else None.
@@ -247,7 +255,7 @@ Definition op_footprint (hw : hwcfg) (code param : Z) (r : regs) : footprint :=
          (if uses_ifm2 code param r then let v2 := ifm2_view r in tag_region (fv_region v2) (fm_segs v2) else []) ++
          (if (code =? cmd0_NPU_OP_CONV) || (code =? cmd0_NPU_OP_DEPTHWISE) then weight_reads hw r else []) ++
          (match lut with
-          | Some i => range_seg SHRAM (hw_lut_addr hw + i * 256) (if fv_elem iv =? 2 then 2048 - i * 256 else 256)
+          | Some i => range_seg SHRAM (hw_lut_addr hw + i * 256) (lut_read_bytes (fv_elem ov) i)
           | None => [] end);
        fp_writes :=
          tag_region (fv_region ov) (fm_segs ov) ++
